@@ -29,6 +29,8 @@ def validDate (t : TimeF) : Bool :=
     else if t.M == 4 || t.M == 6 || t.M == 9 || t.M == 11 then 30 else 31
   1 ≤ t.M && t.M ≤ 12 && 1 ≤ t.D && t.D ≤ dim && t.h < 24 && t.m < 60 && t.s < 60 && t.ns < 1000000000
 
+def atype! (s : String) : AssetType := if s = "2" then .alias else .name
+
 def optHex (o : Option Bytes) : String := match o with | none => "nil" | some b => toHexD b
 
 def cmp (a b : Bytes) : String :=
@@ -94,6 +96,18 @@ def step (_ : Unit) (f : List String) : Unit × String :=
   | ["pend", p] => optHex (prefixEnd (hex! p))
   | ["sqkeys", a] =>
       s!"{toHexD (Gen.Keys.sequencerKey (hex! a))} {toHexD (Gen.Keys.proposerByRollappKey (hex! a))} {toHexD (Gen.Keys.successorByRollappKey (hex! a))}"
+  | ["dec", n] => toHexD (decStr (nat! n))
+  | ["pu64", a] => (match parseU64 (hex! a) with | some v => s!"ok {v}" | none => "err")
+  | ["boid", t, n] => (match createBuyOrderId (atype! t) (nat! n) with | some b => toHexD b | none => "panic")
+  | ["bovalid", a] =>
+      (match parseBuyOrderId (hex! a) with
+       | none => "false invalid invalid"
+       | some (.name, _) => "true pass mismatch"
+       | some (.alias, _) => "true mismatch pass")
+  | ["irodenom", r] => toHexD (Gen.Keys.iRODenom (hex! r))
+  | ["irofrom", d] => optHex (rollappIDFromIRODenom (hex! d))
+  | ["plankey", n] => toHexD (Gen.Keys.planKey (decStr (nat! n)))
+  | ["planrkey", r] => toHexD (Gen.Keys.plansByRollappKey (hex! r))
   | _ => "bad-op")
 
 def drv : Drv := { σ := Unit, init := (), step := step }
